@@ -24,23 +24,41 @@
 #define PAT 0xA5
 #define SMALLCAP 12
 
-typedef struct { unsigned char *base; size_t off, memsize; unsigned char *mem; } region_t;
+typedef struct { unsigned char *base; size_t off, memsize, gfront, gback; unsigned char *mem; unsigned char *ref; } region_t;
+
+/* guard mode of the regions of the current history (`init <memsize> [pat|fake|exact]`):
+ *   pat    guard zones filled with the byte 0xA5 (default)
+ *   fake   guard zones filled with images of a one-slot key entry (count 1, link -1): an access to
+ *          tblslots[idx] with idx outside the table finds something that looks like a slot
+ *   exact  no guard zone behind the region: the region ends where the heap block ends, so that the
+ *          first byte behind it is an ASan red zone */
+static int gmode = 0;
 
 static region_t region_new(size_t memsize, size_t off) {
     region_t r;
     r.off = off; r.memsize = memsize;
-    r.base = malloc(GUARDSZ + off + memsize + GUARDSZ);
-    memset(r.base, PAT, GUARDSZ + off + memsize + GUARDSZ);
-    r.mem = r.base + GUARDSZ + off;
+    r.gfront = GUARDSZ; r.gback = gmode == 2 ? 0 : GUARDSZ;
+    size_t total = r.gfront + off + memsize + r.gback;
+    r.base = malloc(total);
+    memset(r.base, PAT, total);
+    r.mem = r.base + r.gfront + off;
+    if (gmode == 1) {
+        qhasharr_slot_t fake;
+        memset(&fake, 0, sizeof fake);
+        fake.count = 1; fake.datasize = 1; fake.link = -1;
+        unsigned char *t = r.mem + memsize;
+        for (size_t i = 0; i + sizeof fake <= r.gback; i += sizeof fake) memcpy(t + i, &fake, sizeof fake);
+    }
+    r.ref = malloc(total);
+    memcpy(r.ref, r.base, total);
     return r;
 }
 static bool guards_ok(const region_t *r) {
-    for (size_t i = 0; i < GUARDSZ + r->off; i++) if (r->base[i] != PAT) return false;
-    const unsigned char *t = r->mem + r->memsize;
-    for (size_t i = 0; i < GUARDSZ; i++) if (t[i] != PAT) return false;
-    return true;
+    if (memcmp(r->base, r->ref, r->gfront + r->off) != 0) return false;
+    size_t o = r->gfront + r->off + r->memsize;
+    return memcmp(r->base + o, r->ref + o, r->gback) == 0;
 }
-static void region_free(region_t *r) { free(r->base); r->base = NULL; }
+static void region_free(region_t *r) { free(r->base); free(r->ref); r->base = NULL; r->ref = NULL; }
 
 /* growing text buffer */
 typedef struct { char *p; size_t n, cap; } sb_t;
@@ -111,7 +129,7 @@ static const size_t OFFS[] = {4, 8, 12, 20, 36, 100, 2052, 16, 24, 1028};
 
 int main(void) {
     char *line = NULL; size_t cap = 0; ssize_t len;
-    setvbuf(stdout, NULL, _IOFBF, 1 << 16);
+    harness_init();
     init_padmask();
     region_t R = {0}; qhasharr_t *tbl = NULL; unsigned char *shadow = NULL;
     keys_t ks = {0}; size_t nops = 0;
@@ -123,8 +141,9 @@ int main(void) {
         alarm(5);                   /* watchdog: no single operation may take longer (endless loops die here) */
         res.n = 0; sb_puts(&res, "");
         bool all = false;           /* print every slot */
-        if (nw == 2 && !strcmp(op, "init")) {
+        if ((nw == 2 || nw == 3) && !strcmp(op, "init")) {
             size_t memsize = strtoull(w[1], NULL, 10);
+            gmode = nw == 3 ? (!strcmp(w[2], "fake") ? 1 : !strcmp(w[2], "exact") ? 2 : 0) : 0;
             if (tbl) { tbl->free(tbl); tbl = NULL; region_free(&R); free(shadow); shadow = NULL; }
             keys_clear(&ks); nops = 0;
             R = region_new(memsize, 0);
@@ -132,7 +151,7 @@ int main(void) {
             tbl = qhasharr(R.mem, memsize);
             if (!tbl) {
                 bool untouched = guards_ok(&R);
-                for (size_t i = 0; i < memsize; i++) if (R.mem[i] != PAT) untouched = false;
+                if (memcmp(R.mem, R.ref + R.gfront + R.off, memsize) != 0) untouched = false;
                 printf("init null %s%s\n", errname(errno), untouched ? "" : " region-written");
                 region_free(&R);
                 continue;
